@@ -287,20 +287,22 @@ def build(torch):
         return (len(s), len(i), a[1] < 0, numel(i) == 0)
 
     F.append(Fam("scatter_src", "aten_scatter_src", lambda x, d, i, s: torch.scatter(x, d, i, s), G3.gen_scatter_src,
-                 lambda a, k: f"(CScatterSrc {lz(sh(a[0]))} {z(a[1])} {lz(sh(a[2]))} {lz(sh(a[3]))})", lambda a, k, out: r3shape(out), sc_cls,
+                 lambda a, k: f"(CScatterSrc {{F1}} {lz(sh(a[0]))} {z(a[1])} {lz(sh(a[2]))} {lz(sh(a[3]))})", lambda a, k, out: r3shape(out), sc_cls,
                  chk=3, quick=50, thorough=500, floors={"negative dim": (lambda a, k: a[1] < 0 and bool(sh(a[0])), 8),
                                                          "index smaller than self": (lambda a, k: bool(sh(a[0])) and sh(a[2]) != sh(a[0]), 8)}))
     F[-1].finding = sc_find("src")
+    F[-1].flags = lambda a, k, ops, sk=None: ("Reshape" in ops, False)
     F.append(Fam("scatter_value", "aten_scatter_value", lambda x, d, i, v: torch.scatter(x, d, i, v), G3.gen_scatter_value,
-                 lambda a, k: f"(CScatterValue {lz(sh(a[0]))} {z(a[1])} {lz(sh(a[2]))})", lambda a, k, out: r3shape(out), sc_cls,
+                 lambda a, k: f"(CScatterValue {{F1}} {lz(sh(a[0]))} {z(a[1])} {lz(sh(a[2]))})", lambda a, k, out: r3shape(out), sc_cls,
                  chk=3, quick=40, thorough=400, floors={"negative dim": (lambda a, k: a[1] < 0 and bool(sh(a[0])), 3),
                                                          "0-d index": (lambda a, k: not sh(a[2]) and bool(sh(a[0])), 1)}))
     F[-1].finding = sc_find("value")
+    F[-1].flags = lambda a, k, ops, sk=None: ("Reshape" in ops, False)
     F.append(Fam("scatter_add", "aten_scatter_add", lambda x, d, i, s: torch.scatter_add(x, d, i, s), G3.gen_scatter_add,
-                 lambda a, k: f"(CScatterAdd {{F1}} {lz(sh(a[0]))} {z(a[1])} {lz(sh(a[2]))} {lz(sh(a[3]))})", lambda a, k, out: r3shape(out), sc_cls,
+                 lambda a, k: f"(CScatterAdd {{F1}} {{F2}} {lz(sh(a[0]))} {z(a[1])} {lz(sh(a[2]))} {lz(sh(a[3]))})", lambda a, k, out: r3shape(out), sc_cls,
                  chk=3, quick=40, thorough=400, floors={"negative dim": (lambda a, k: a[1] < 0 and bool(sh(a[0])), 6)}))
     F[-1].finding = sc_find("add")
-    F[-1].flags = lambda a, k, ops, sk=None: ("Unsqueeze" in ops, False)
+    F[-1].flags = lambda a, k, ops, sk=None: ("Unsqueeze" in ops or "Reshape" in ops, "Reshape" in ops)
     F.append(Fam("scatter_reduce", "aten_scatter_reduce",
                  lambda x, d, i, s, r, include_self=True: torch.scatter_reduce(x, d, i, s, r, include_self=include_self), G3.gen_scatter_reduce,
                  lambda a, k: f"(CScatterReduce {{F1}} {lz(sh(a[0]))} {z(a[1])} {lz(sh(a[2]))} {lz(sh(a[3]))} {b(k['include_self'])})",
